@@ -23,7 +23,14 @@ var injectable = map[string][]string{
 }
 
 // suiteC15f: every single system-call failure in every mutating operation.
-func suiteC15f(c *ctx) {
+func suiteC15f(c *ctx) { faultSweep(c, true) }
+
+// suiteC09f: the same sweep for C09 — an operation that reports SUCCESS although one of its calls
+// failed must still be durable at the acknowledgement (the verified checker durableAtAck on the
+// trace of the faulted run).
+func suiteC09f(c *ctx) { faultSweep(c, false) }
+
+func faultSweep(c *ctx, c15 bool) {
 	r := c.r
 	self, _ := os.Executable()
 	nops := 10
@@ -62,7 +69,9 @@ func suiteC15f(c *ctx) {
 		writeCase(cf, cfg, base, op, user, pw, admin)
 		evs, out, _, err := runTraced(self, cf, tr, "")
 		if err != nil || !strings.HasPrefix(out, "ok") {
-			c.emit("law.harness.baseline_operation_succeeds "+op, tf(false))
+			if c15 {
+				c.emit("law.harness.baseline_operation_succeeds "+op, tf(false))
+			}
 			continue
 		}
 		// index of the commit point (the rename, or the last unlink of remove) in the baseline
@@ -126,6 +135,16 @@ func suiteC15f(c *ctx) {
 				if fout == "" && !killed {
 					continue // the child's own report was lost: nothing to judge
 				}
+				if !c15 {
+					// C09: success was reported under a fault => the change must be durable at that point
+					if strings.HasPrefix(fout, "ok") && op != "remove" {
+						cl := &classifier{base: base, user: user}
+						t := &traced{op: op, user: user, admin: admin, res: fout, pre: pre, post: post}
+						t.events = abstractEvents(fevs, cl)
+						c.emit("tr.c09f "+t.payload(), "ok")
+					}
+					continue
+				}
 				switch {
 				case killed && fout == "":
 					c.emit("law.C15.fault_no_crash "+desc, "f")
@@ -180,4 +199,4 @@ func faultSuccessComplete(op, user string, admin bool, pre, post []sent) bool {
 	}
 }
 
-func init() { suites["c15f"] = suiteC15f }
+func init() { suites["c15f"] = suiteC15f; suites["c09f"] = suiteC09f }
